@@ -240,6 +240,21 @@ def check_tree(tree, inputs, output, n, modulo_labels=False):
     return bad
 
 
+def connected(inputs):
+    n = len(inputs)
+    if any(len(t) == 0 for t in inputs):
+        return False
+    seen = {0}
+    queue = [0]
+    while queue:
+        i = queue.pop()
+        for j in range(n):
+            if j not in seen and set(inputs[i]) & set(inputs[j]):
+                seen.add(j)
+                queue.append(j)
+    return len(seen) == n
+
+
 # ---------------------------------------------------------------- finders
 
 def grid_values(spec):
@@ -411,6 +426,17 @@ def work_presets(netsl, tier, seed, res):
             if inds:
                 # edge path over canonical labels: canonicalize maps labels,
                 # and the optimize edge path is translated alongside
+                if connected(inputs):
+                    # eliminating every index of a connected network must
+                    # consume every tensor
+                    for canon in (True, False):
+                        for order in (inds, inds[::-1]):
+                            run_one(res, f"explicit-edge-path-as-path"
+                                    f"[canon={canon}]", {"order": order}, net,
+                                    lambda: ctg.array_contract_path(
+                                        inputs, output, sd,
+                                        optimize=list(order), cache=False,
+                                        canonicalize=canon), "path")
                 run_one(res, "explicit-edge-path", {}, net,
                         lambda: ctg.array_contract_tree(
                             inputs, output, sd, optimize=tuple(inds)),
